@@ -242,7 +242,7 @@ pub fn profile(prop: u8, thorough: bool) -> Profile {
             p.abstract_only = true;
             p.size_w = [1, 1, 1, 1, 4, 3, 1, 0];
             p.max_big = 150;
-            p.ops = with(p.ops, &[("serde", 1), ("deser_seq", 3), ("get", 3), ("append", 4)]);
+            p.ops = with(p.ops, &[("serde", 1), ("deser_seq", 3), ("get", 3), ("append", 4), ("eq", 3)]);
             p.big_w = 6;
         }
         _ => {}
